@@ -348,6 +348,11 @@ def make_app_classes():
                 await asyncio.sleep(pol['suspend'])
             if pol.get('raise'):
                 raise RuntimeError('app: request_response raised')
+            if pol.get('returns') == 'none':
+                return None                       # a handler that forgot to return its future
+            if pol.get('returns') == 'wrong':
+                from rsocket.payload import Payload
+                return Payload(b'not a future')   # ... or returned the payload itself
             if pol.get('close_in_handler'):
                 # the application decides, while handling a request, to close the connection (e.g. a 'bye' request)
                 self.w.rec.log(self.ep, 'app_close')
@@ -380,6 +385,10 @@ def make_app_classes():
                 await asyncio.sleep(pol['suspend'])
             if pol.get('raise'):
                 raise RuntimeError('app: request_stream raised')
+            if pol.get('returns') == 'none':
+                return None
+            if pol.get('returns') == 'wrong':
+                return [1, 2, 3]                  # not a Publisher
             pub = self.w.make_source(self.ep, iid, 'resp', pol)
             self.w.interaction(iid)['resp_pub'] = pub
             self.w.rec.log(self.ep, 'app_producer', iid=iid, role='resp', kind=pol.get('src', 'scripted'),
@@ -391,6 +400,10 @@ def make_app_classes():
             pol = self.w.policy.get(iid, {})
             if pol.get('raise'):
                 raise RuntimeError('app: request_channel raised')
+            if pol.get('returns') == 'none':
+                return None                       # not even a pair
+            if pol.get('returns') == 'wrong':
+                return 'publisher', 'subscriber'  # a pair of the wrong things
             pub = self.w.make_source(self.ep, iid, 'resp', pol) if pol.get('pub', True) else None
             sub = RecSubscriber(self.w, self.ep, iid, 'resp', pol.get('sub_raise_in')) if pol.get('sub', True) else None
             if sub is not None:
